@@ -67,6 +67,9 @@ type Env struct {
 	// MidBlockReadPct: share of blocks in which the committed state is read (all getters, all query
 	// endpoints) between EndBlock and Commit
 	MidBlockReadPct int
+	// PreCheckPct: share of the transactions that are simulated (a third) or sent through CheckTx
+	// (two thirds) right before they are delivered
+	PreCheckPct int
 	// GovRollbackPct: share of single-message governance proposals that get a failing second message
 	GovRollbackPct int
 	// GovExecBlockTxs: delivered (once) in the block whose EndBlock executes the next proposal
@@ -85,7 +88,7 @@ func NewEnv(c *fw.Ctx, o lab.Options) *Env {
 	o.Home = c.Scratch + "/home"
 	l := lab.New(dbm.NewMemDB(), o)
 	l.OnReadPanic = readPanicHook(c)
-	return &Env{C: c, L: l, R: c.Rng, GovRollbackPct: 15, MidBlockReadPct: 12}
+	return &Env{C: c, L: l, R: c.Rng, GovRollbackPct: 15, MidBlockReadPct: 12, PreCheckPct: 20}
 }
 
 // readPanicHook: a keeper getter / iterator that panics while the state is being read ends the case
@@ -183,6 +186,28 @@ func (e *Env) DeliverRaw(tx *TxPlan, bz []byte) abci.ResponseDeliverTx {
 	}
 	if e.cur != nil {
 		e.cur.Txs = append(e.cur.Txs, bz)
+	}
+	// What a real node does around a transaction besides delivering it: clients simulate it for a gas
+	// estimate, the mempool checks it. Neither may leave anything behind that changes the result of
+	// the delivery or of anything later (the oracles of the property judge that; C01's replicas,
+	// which only ever see the block, would disagree).
+	if e.PreCheckPct > 0 {
+		if x := e.R.Intn(100); x < e.PreCheckPct {
+			func() {
+				defer func() {
+					if p := recover(); p != nil {
+						e.C.Count("pre_delivery_check_panics", 1)
+					}
+				}()
+				if x%3 == 0 {
+					e.L.App.Simulate(bz)
+					e.C.Count("simulated_before_delivery", 1)
+				} else {
+					e.L.Check(bz)
+					e.C.Count("checked_before_delivery", 1)
+				}
+			}()
+		}
 	}
 	resp := e.L.Deliver(bz)
 	e.BlockEvents = append(e.BlockEvents, resp.Events...)
